@@ -1021,6 +1021,7 @@ func analyse(cfgName string, env []string, patterns []string, wantPkgs map[strin
 	for k := range vcValueUse {
 		delete(vcValueUse, k)
 	}
+	vcAllFns = a.fns
 	callers := map[*ssa.Function][]*ssa.CallCommon{}
 	callerFn := map[*ssa.CallCommon]*ssa.Function{}
 	valueUse := map[*ssa.Function]bool{}
